@@ -12,7 +12,7 @@ Solver variable: the guard value of the first (a, go) candidate (rejected candid
 from __future__ import annotations
 
 from vfw.machines import render
-from vfw.scenario import Acceptor, Script, accept_or_mismatch, outcome_of
+from vfw.scenario import ANY, Acceptor, Script, accept_or_mismatch, outcome_of
 
 PROPERTY = "C02"
 
@@ -139,7 +139,7 @@ def run(ctx, params):
         script.sm = sm
         if not is_async:
             acc = Acceptor(am, script.log, rtc=params["rtc"], is_async=False)
-            accept_or_mismatch(acc, None, ["__initial__"], ("ret", None), "init:" + tag, script.log)
+            accept_or_mismatch(acc, None, ["__initial__"], ("ret", ANY), "init:" + tag, script.log)
             if sm.current_state.id != "a":
                 ctx.check(False, "initial-state-not-active:" + tag)
             return
